@@ -160,10 +160,8 @@ def _transfer(fn, b, fs, tracked, root, enums=frozenset(), resolved=None, edge_f
                 if resolved is not None:
                     resolved.append((p["l"], val, "discr"))
                 fs.pop(p["l"], None)
-                # the matched value keeps its payload fact until it is moved out, but its own variant is consumed
-                src = fs.get(f_[2])
-                if src is not None and src[1] is None:
-                    fs.pop(f_[2], None)
+                # (the matched value keeps its fact: it may be moved on and matched again -- `Err(e) => return
+                # Err(e)` written as `other => other`; facts of dead locals are dropped by the liveness filter)
             elif edge_facts is not None:
                 # an ordinary match: along each arm the scrutinee's variant is known from here on (a later
                 # re-match of the same value, e.g. `other => other.map_err(..)`, then takes one side only)
